@@ -101,6 +101,9 @@ class BuiltinMixin(object):
     _need(2, args, 'isinstance')
     out = []
     if isinstance(args[0], VVal) and isinstance(args[1], (VClass, VTuple)):
+      t = self.isinstance_val(st, args[0].t, args[1])
+      if t is not None:
+        return [(st, VBool(z3.simplify(t)))]
       views = self.views(st, args[0])
       if views is not None:
         t = z3.Or(*[z3.And(c, self.isinstance_term(st, tv, args[1])) for c, tv in views])
@@ -117,6 +120,30 @@ class BuiltinMixin(object):
       else:
         out.append((s, VBool(self.isinstance_term(s, v, tgt))))
     return out
+
+  def isinstance_val(self, st, t, target):
+    """isinstance(<Val term>, target) without forking, or None when the target needs a resolved value."""
+    if isinstance(target, VTuple):
+      parts = [self.isinstance_val(st, t, x) for x in target.items]
+      return None if any(p is None for p in parts) else z3.Or(*parts)
+    if not isinstance(target, VClass):
+      return None
+    c = target.cls
+    table = {'int': z3.Or(Val.is_VI(t), Val.is_VB(t)), 'bool': Val.is_VB(t), 'float': Val.is_VF(t), 'str': Val.is_VS(t),
+             'bytes': Val.is_VY(t), 'NoneType': Val.is_VN(t), 'object': z3.BoolVal(True),
+             'numbers.Number': z3.Or(Val.is_VI(t), Val.is_VB(t), Val.is_VF(t)),
+             'numbers.Integral': z3.Or(Val.is_VI(t), Val.is_VB(t)),
+             'numbers.Real': z3.Or(Val.is_VI(t), Val.is_VB(t), Val.is_VF(t))}
+    if isinstance(c, str):
+      if c in ('list', 'dict', 'set', 'tuple'):
+        return z3.And(Val.is_VR(t), st.classof(Val.r(t)) == -vv.TYPE_IDS[c])
+      return table.get(c)
+    if isinstance(c, EnumInfo):
+      return z3.And(Val.is_VE(t), Val.e(t) == c.uid)
+    if isinstance(c, ClassInfo):
+      subs = self.ctx.registry.subclasses(c)
+      return z3.And(Val.is_VR(t), Val.r(t) != 0, z3.Or(*[st.classof(Val.r(t)) == x.uid for x in subs]))
+    return None
 
   def b_issubclass(self, st, args, kwargs):
     _need(2, args, 'issubclass')
@@ -488,8 +515,20 @@ class BuiltinMixin(object):
   def b_forall_str(self, st, args, kwargs):
     return self._quant_lambda(st, args[0], True, z3.StringSort())
 
+  def b_forall_key(self, st, args, kwargs):
+    """Quantifier over every possible dict key (the universal value sort)."""
+    return self._quant_lambda(st, args[0], True, Val)
+
   def b_exists_str(self, st, args, kwargs):
     return self._quant_lambda(st, args[0], False, z3.StringSort())
+
+  def b_keypos(self, st, args, kwargs):
+    d, k = args
+    pos = st.ghost.get(('$keypos', d.t.get_id()))
+    if pos is None:
+      st.axiom(self.dict_wf(st, d))
+      pos = st.ghost[('$keypos', d.t.get_id())]
+    return [(st, VInt(pos(self.to_val(st, k))))]
 
   def b_cast(self, st, args, kwargs):
     obj, cls = args
@@ -534,9 +573,17 @@ class BuiltinMixin(object):
     s = st.fork()
     env = dict(fn.closure or st.env)
     for p, b in zip(params, bound):
-      env[p] = VInt(b) if sort == z3.IntSort() else VStr(b)
+      env[p] = VInt(b) if sort == z3.IntSort() else (VStr(b) if sort == z3.StringSort() else VVal(b))
     s.env = env
+    base = len(s.pc)
     body = self.eval_merged_bool(s, fn.finfo.node.body)
+    # axioms discovered while evaluating the body that do not mention the bound variables hold outside as well
+    names = [str(b) for b in bound]
+    for c in s.pc[base:]:
+      if c.get_id() in s.ax and c.get_id() not in st.ax:
+        txt = c.sexpr()
+        if not any(n in txt for n in names):
+          st.axiom(c)
     return [(st, VBool(z3.ForAll(bound, body) if universal else z3.Exists(bound, body)))]
 
   # ------------------------------------------------------------------ constructors of builtin types
@@ -1039,6 +1086,39 @@ class BuiltinMixin(object):
     st.pyheap[(self.oid_of(rx), 'pattern')] = args[0]
     st.assume(z3.Function('re_pattern', z3.IntSort(), z3.StringSort())(rx.t) == args[0].t)
     return [(st, rx)]
+
+  def x_yaml_safe_load(self, st, args, kwargs):
+    """Trusted: parsing is a deterministic partial function of the text; the result is a (pre-existing) dict with
+    str keys, or a non-dict value, or yaml.YAMLError."""
+    self.ctx.use_trusted('yaml.safe_load')
+    out = []
+    for s, v in self.resolve(st, args[0]):
+      if not isinstance(v, VStr):
+        raise Unsupported('yaml.safe_load of %r' % (v,))
+      kind = z3.Function('yaml_kind', z3.StringSort(), z3.IntSort())(v.t)
+      ref = z3.Function('yaml_dict', z3.StringSort(), z3.IntSort())(v.t)
+      other = z3.Function('yaml_value', z3.StringSort(), Val)(v.t)
+      for n in (0, 1, 2):
+        s2 = s.fork() if n < 2 else s
+        s2.assume(kind == n)
+        if not self.feasible(s2):
+          continue
+        if n == 0:
+          s2.axiom(z3.And(ref > 0, ref < 1000000))
+          out.append((s2, VRef('dict', ref, elem=None, keykind=Kind('str'))))
+        elif n == 1:
+          s2.axiom(z3.Not(Val.is_VR(other)))
+          out.append((s2, VVal(other)))
+        else:
+          exc = self.alloc(s2, 'exc:yaml.YAMLError')
+          out.append((s2, Raised(exc)))
+    return out
+
+  def b_yaml_dict_of(self, st, args, kwargs):
+    """Spec function: the dict yaml.safe_load yields for the text read from the given file object."""
+    text = z3.Function('file_read', z3.IntSort(), z3.StringSort())(args[0].t)
+    ref = z3.Function('yaml_dict', z3.StringSort(), z3.IntSort())(text)
+    return [(st, VRef('dict', ref, elem=None, keykind=Kind('str')))]
 
   def x_os_path_basename(self, st, args, kwargs):
     return [(st, VStr(z3.Function('basename', z3.StringSort(), z3.StringSort())(args[0].t)))]
